@@ -391,24 +391,43 @@ end Gen.{name}
 
 
 # ---------------------------------------------------------------- what to generate
-def _sources():
-    core.use_repo()
-    from packaging import specifiers, utils, version
-    return {
-        "VersionRx": lambda: (version.Version._regex, K.kind_ci),
-        "SpecifierRx": lambda: (specifiers.Specifier._regex, K.kind_ci),
-        "NameValidRx": lambda: (utils._validate_regex, K.kind_cs),
-    }
+REGEX_SOURCES = {}   # name -> thunk returning (compiled pattern, kind function)
+TABLES = {}          # name -> thunk returning (lean source, info dict)
 
 
-TABLES = {}
+def regex_source(name):
+    """register a regex to translate: the thunk runs after ``core.use_repo()`` and returns (pattern, kind_fn)"""
+    def deco(f):
+        REGEX_SOURCES[name] = f
+        return f
+    return deco
 
 
 def table(name):
+    """register a table generator: the thunk returns (lean source text, info dict)"""
     def deco(f):
         TABLES[name] = f
         return f
     return deco
+
+
+def lean_str(s: str) -> str:
+    """a Python str as a Lean `List Nat` literal of code points"""
+    return "[" + ", ".join(str(ord(c)) for c in s) + "]"
+
+
+def _load_translators():
+    import importlib
+    import pkgutil
+    import translators
+    for m in pkgutil.iter_modules(translators.__path__):
+        importlib.import_module("translators." + m.name)
+
+
+def _sources():
+    core.use_repo()
+    _load_translators()
+    return REGEX_SOURCES
 
 
 def write_if_changed(path: Path, text: str) -> bool:
@@ -448,12 +467,16 @@ def generate(names):
 
 
 def all_names():
-    import tables  # noqa: F401  (registers table generators)
     return list(_sources()) + list(TABLES)
 
 
-if __name__ == "__main__":
-    names = all_names() if "--all" in sys.argv else sys.argv[1:]
+def main(argv):
+    names = all_names() if "--all" in argv else argv[1:]
     info = generate(names)
     print(json.dumps(info, indent=1))
-    sys.exit(1 if any("error" in v for v in info.values()) else 0)
+    return 1 if any("error" in v for v in info.values()) else 0
+
+
+if __name__ == "__main__":
+    import translate as _self   # so that translators register into the importable module, not __main__
+    sys.exit(_self.main(sys.argv))
